@@ -47,6 +47,9 @@ pub struct Case {
     pub headers: Vec<HeaderSpec>,
     pub chunked: bool,
     pub segs: Vec<Seg>,
+    /// the max_headers *setting* (the number of fields still follows max_headers / fill): 0 = max_headers itself, 1 = 24577, 2 = 100 000, 3 = usize::MAX
+    #[serde(default)]
+    pub big_limit: u8,
 }
 
 pub struct C04;
@@ -215,8 +218,9 @@ identical result for every segmentation. non-trivial = >=2 fields and one of {du
             proptest::collection::vec(seg(), 1..4),
             // special long-line classes
             prop_oneof![8 => Just(0u8), 2 => Just(1u8), 1 => Just(2u8)],
+            prop_oneof![12 => Just(0u8), 1 => Just(1u8), 1 => Just(2u8), 1 => Just(3u8)],
         )
-            .prop_map(|(status, version, reason, max_headers, fill, mut headers, chunked, segs, long)| {
+            .prop_map(|(status, version, reason, max_headers, fill, mut headers, chunked, segs, long, big_limit)| {
                 match long {
                     1 => {
                         if let Some(h) = headers.first_mut() {
@@ -239,6 +243,7 @@ identical result for every segmentation. non-trivial = >=2 fields and one of {du
                     headers,
                     chunked,
                     segs,
+                    big_limit,
                 }
             })
             .boxed()
@@ -334,7 +339,13 @@ identical result for every segmentation. non-trivial = >=2 fields and one of {du
             let mut events = seg.split(&wire, &structural);
             multi_seg |= events.len() >= 2;
             events.push(Ev::Eof);
-            let (res, _net, _guard) = get_scripted(events, |rb| rb.max_headers(m).follow_redirects(false));
+            let limit = match case.big_limit {
+                1 => 24_577,
+                2 => 100_000,
+                3 => usize::MAX,
+                _ => m,
+            };
+            let (res, _net, _guard) = get_scripted(events, |rb| rb.max_headers(limit).follow_redirects(false));
             let resp = match res {
                 Ok(r) => r,
                 Err(e) => {
@@ -396,6 +407,7 @@ identical result for every segmentation. non-trivial = >=2 fields and one of {du
         ctx.label_if(multi_seg, "multi-segment");
         ctx.label_if(count == m, "exactly-max-headers");
         ctx.label_if(count == 0, "no-fields");
+        ctx.label_if(case.big_limit != 0, "huge-max_headers-setting");
         ctx.label_if(case.chunked, "transfer-encoding-present");
         ctx.label_if(fields.iter().any(|(n, wv, t)| n.len() + 1 + usize::from(!*t) + wv.len() + 2 == 16384), "line-at-16KiB-limit");
         ctx.label_if(case.version != "HTTP/1.1", "odd-version-token");
